@@ -25,6 +25,10 @@ def make_inline_hook(prog: Program, cls: Optional[ClassInfo], module, max_depth:
         if isinstance(fn, ast.Attribute) and isinstance(fn.value, ast.Name) and fn.value.id == "self" and cls is not None:
             target = prog.lookup_method(cls, fn.attr)
             params_off = 1
+            if target is not None:
+                from .frontend import decorators as _decos
+                if any(d.split(".")[-1] == "staticmethod" for d in _decos(target.node)):
+                    params_off = 0
         elif isinstance(fn, ast.Name) and fn.id not in env.vars and module is not None:
             full = prog.resolve_name(module, fn.id)
             target = prog.functions.get(full) if full else None
